@@ -8,6 +8,7 @@ use vstd::prelude::*;
 use vstd::std_specs::hash::*;
 use std::collections::{HashMap, HashSet, VecDeque};
 use std::time::Instant;
+use std::fmt::Debug;
 
 verus! {
 
